@@ -5,6 +5,7 @@ import (
 	"math/rand"
 	"strings"
 	"sync"
+	"sync/atomic"
 	"time"
 
 	"github.com/yandex/mysync/internal/config"
@@ -26,6 +27,7 @@ type c08Spec struct {
 	HealS    int      `json:"timeouts_heal_after_s"`
 	Turn     string   `json:"timing_out_replicas_then"` // healthy refusing stopped: what they are once they answer again
 	Second   bool     `json:"second_loss_after_reconnect"`
+	SSFail   bool     `json:"first_semi_sync_disable_fails"` // the stuck-commit handling fails half-way once (offline already set) and is retried
 }
 
 var c08Conds = []string{"streaming", "stopped", "wrong_source", "not_semisync", "refusing", "timing_out"}
@@ -64,6 +66,7 @@ func c08Gen(seed int64, idx int) c08Spec {
 	sp.HealS = []int{0, 8, 0, 45}[r.Intn(4)]
 	sp.Turn = []string{"healthy", "refusing", "stopped"}[r.Intn(3)]
 	sp.Second = sp.RO != "lock_wait" && r.Intn(3) == 0
+	sp.SSFail = stuck && (idx/8)%2 == 1
 	return sp
 }
 
@@ -78,6 +81,7 @@ type c08Iter struct {
 	setRO  bool
 	roErr  []int
 	seq    []string
+	failed []string // other mutating statements at the local server that failed (injected)
 }
 
 type c08Monitor struct {
@@ -172,6 +176,8 @@ func newC08Monitor(sc *Scen, sp c08Spec, inst, local string, ha []string) *c08Mo
 			if (c.Class == "set_ro" || c.Class == "set_ro_nosuper") && c.Host == local {
 				it.setRO = true
 				it.roErr = append(it.roErr, c.Errno)
+			} else if c.Host == local && c.Errno != 0 {
+				it.failed = append(it.failed, c.Class)
 			}
 		}
 	})
@@ -283,7 +289,10 @@ func (m *c08Monitor) judge(w *world.World, next string) {
 					injectedOther = true
 				}
 			}
-			if !loc.ReadOnly && !injectedOther && !m.roInjected && loc.Up {
+			if len(it.failed) > 0 {
+				m.sc.Cover("stuck-handling-step-failed")
+			}
+			if !loc.ReadOnly && !injectedOther && !m.roInjected && loc.Up && len(it.failed) == 0 {
 				if !(stuck && w.PendingLocked(m.local) == 0 && !strings.Contains(strings.Join(it.seq, ","), "offline_on")) {
 					m.sc.Violate("C08", "fence-attempted-but-not-read-only", fmt.Sprintf("%s sent read-only statements to %s (errors %v) but the server is still writable when the iteration ends; statements: %v", m.inst, m.local, it.roErr, it.seq), w.DescribeLocked())
 				}
@@ -297,7 +306,7 @@ func (m *c08Monitor) judge(w *world.World, next string) {
 					if j >= 0 {
 						k = strings.Index(seq[i+j:], "set_ro")
 					}
-					if j < 0 || k < 0 {
+					if (j < 0 || k < 0) && len(it.failed) == 0 {
 						m.sc.Violate("C08", "stuck-handling-sequence", fmt.Sprintf("after a lock-wait timeout with commits hanging, %s did not follow offline -> semi-sync off -> read-only: %v", m.inst, it.seq))
 					}
 				}
@@ -377,6 +386,18 @@ func c08Run(u *Unit) {
 				return world.FaultAction{}
 			}
 			s.W.Unlock()
+		case "lock_wait":
+			if sp.SSFail {
+				var done atomic.Bool
+				s.W.Lock()
+				s.W.Fault = func(c *world.StmtCtx) world.FaultAction {
+					if c.Class == "ss_disable" && c.Host == local && instOfCaller(c.Caller) == local && done.CompareAndSwap(false, true) {
+						return world.FaultAction{Kind: "fail", Errno: 2013}
+					}
+					return world.FaultAction{}
+				}
+				s.W.Unlock()
+			}
 		case "other_error":
 			mon.roInjected = true
 			s.W.Lock()
@@ -415,6 +436,9 @@ func c08Run(u *Unit) {
 			}()
 		}
 		time.Sleep(c08Delay + 75*time.Second)
+		if sp.SSFail {
+			time.Sleep(120 * time.Second) // room for the retry of the half-done handling (and for one more iteration after it)
+		}
 		if sp.RO == "lock_wait" {
 			s.ZKOutage(false)
 		}
@@ -456,7 +480,7 @@ func c08Run(u *Unit) {
 func init() {
 	register(&Prop{ID: "C08", Units: func(tier string) int { return tierN(tier, 400, 10000) }, Run: c08Run,
 		Floor: func(string) []string {
-			return []string{"class:none:single-or-non-ha", "class:none:fencing-disabled", "class:none:live-group", "class:fence", "class:fence-or-wait", "fenced", "postponed-within-delay", "fence-after-delay", "stuck-commit-handling"}
+			return []string{"class:none:single-or-non-ha", "class:none:fencing-disabled", "class:none:live-group", "class:fence", "class:fence-or-wait", "fenced", "postponed-within-delay", "fence-after-delay", "stuck-commit-handling", "stuck-handling-step-failed"}
 		},
 		Rule: "scenario = local role (master / HA replica / cascade) x cluster size 1-4 x semi-sync x configured count x fencing switch x per-replica condition (streaming, stopped, wrong source, not semi-sync, refusing, timing out) x outcome of the read-only attempt (ok, lock-wait timeout with commits hanging on semi-sync, hang to the deadline, other error) x whether timing-out replicas heal before/after the delay; every iteration of the Lost handler is classified by the statement's table on the instance's own view and judged; distinct by the full tuple"})
 }
